@@ -22,7 +22,7 @@ CODES = {3: "INVALID_ARGUMENT", 5: "NOT_FOUND", 7: "PERMISSION_DENIED", 9: "FAIL
 
 def floors(tier):
     k = 1 if tier == "quick" else 8
-    return {"lro_histories": 300 * k, "polls_observed": 300 * k, "results_typed": 150 * k, "errors_mapped": 60 * k, "rejections_checked": 4 * k,
+    return {"lro_histories": 300 * k, "polls_observed": 300 * k, "results_typed": 150 * k, "errors_mapped": 60 * k, "rejections_checked": (4 if tier == "quick" else 20),
             "raw_operation_calls": 16 * k, "resp:far": 30 * k, "meta:far": 30 * k, "resp:empty": 20 * k, "client:aio": 120 * k}
 
 
